@@ -57,14 +57,21 @@ Scenarios == {[msgs |-> <<m>>, extra |-> x] : m \in ReqMsgs \cup RespMsgs, x \in
               \cup {[msgs |-> <<Req(Get, Http11, <<>>, <<>>, None), Req(Post, Http11, <<>>, <<>>, Fixed(<<"x">>))>>, extra |-> <<>>],
                     [msgs |-> <<Resp(Http11, <<>>, <<>>, Chunks(<< C(<<"x">>, <<>>) >>, <<>>, <<>>)), Resp(Http11, <<>>, <<>>, Fixed(<<"y">>))>>, extra |-> <<>>]}
 
-Fam == TLCEval(SetToSeq(Scenarios))
-FamWires == TLCEval([i \in 1..Len(Fam) |-> Cat([j \in 1..Len(Fam[i].msgs) |-> Wire(Fam[i].msgs[j])]) \o Fam[i].extra])
-\* offset of the end of the jth message of scenario i
-FamEnds == TLCEval([i \in 1..Len(Fam) |-> [j \in 1..Len(Fam[i].msgs) |-> Len(Cat([k \in 1..j |-> Wire(Fam[i].msgs[k])]))]])
-FamN == Len(Fam)
-FamWire(i) == FamWires[i]
-FamKind(i) == Fam[i].msgs[1].kind
-FamMsgs(i) == Len(Fam[i].msgs)
+\* everything about the scenarios is computed once (TLCEval forces the lazily evaluated functions)
+FamData == TLCEval(LET fam == SetToSeq(Scenarios) IN
+    [i \in 1..Len(fam) |->
+        LET ws == [j \in 1..Len(fam[i].msgs) |-> Wire(fam[i].msgs[j])] IN
+        [msgs |-> fam[i].msgs,
+         wire |-> Cat(ws) \o fam[i].extra,
+         ends |-> [j \in 1..Len(ws) |-> Len(Cat(SubSeq(ws, 1, j)))],   \* offset of the end of the jth message
+         kind |-> fam[i].msgs[1].kind,
+         n |-> Len(ws)]])
+Fam == FamData
+FamN == Len(FamData)
+FamWire(i) == FamData[i].wire
+FamKind(i) == FamData[i].kind
+FamMsgs(i) == FamData[i].n
+FamMaxLen == Max({Len(FamData[i].wire) : i \in 1..Len(FamData)})
 
 ASSUME \A i \in 1..Len(Fam) : \A j \in 1..Len(Fam[i].msgs) : UniqueNames(Fam[i].msgs[j])
 
@@ -72,11 +79,11 @@ ASSUME \A i \in 1..Len(Fam) : \A j \in 1..Len(Fam[i].msgs) : UniqueNames(Fam[i].
 Cur == Fam[sc].msgs[nth]
 \* a complete message is reported with exactly its content; the bytes after it stay in the buffer
 DoneRight == p.phase = "done" => /\ Result(p) = Content(Cur)
-                                 /\ p.buf = SubSeq(W, FamEnds[sc][nth] + 1, sent)
+                                 /\ p.buf = SubSeq(W, Fam[sc].ends[nth] + 1, sent)
 \* the message is complete as soon as its last byte has arrived (and, for a body that runs until close, the peer closed)
-DoneIffComplete == ~fresh => ((p.phase = "done") <=> (sent >= FamEnds[sc][nth] /\ (Cur.body.k = "close" => closed)))
+DoneIffComplete == ~fresh => ((p.phase = "done") <=> (sent >= Fam[sc].ends[nth] /\ (Cur.body.k = "close" => closed)))
 
 (* ---- the scenarios' bytes for the harness ---- *)
-Table == [i \in 1..Len(Fam) |-> [wire |-> FamWires[i], kind |-> FamKind(i), n |-> FamMsgs(i), ends |-> FamEnds[i]]]
+Table == [i \in 1..Len(Fam) |-> [wire |-> Fam[i].wire, kind |-> Fam[i].kind, n |-> Fam[i].n, ends |-> Fam[i].ends]]
 ASSUME JsonSerialize(IOEnv.TABLE_OUT, Table)
 =============================================================================
